@@ -69,7 +69,7 @@ def plan(ctx):
                        ([('tokcore', 'A_TOK_CORE', 4, i, 96) for i in range(96)] if ctx.thorough else [])),
         ('shard_random', [('rnd', ctx.pick(1500, 40000), i) for i in range(16)]),
         ('shard_mutations', [('mut', ctx.pick(4, 40), i) for i in range(16)]),
-        ('shard_spaced', [('spaced', ctx.pick(400, 10000), i) for i in range(16)]),
+        ('shard_spaced', [('spaced', ctx.pick(300, 10000), i) for i in range(16)]),
         ('shard_runs', [('runs', i, 8) for i in range(8)]),
         ('shard_shrinking', [('shrink', i, 16) for i in range(16)]),
     ]
@@ -126,7 +126,7 @@ def shard_runs(ctx, shard):
 def shrinking_documents():
     """Group bodies whose serialisation is SHORTER than their source (blanks before inner argument groups are dropped),
     at every size in a range: a decision taken from a distance / token count across such a body may flip on re-parsing."""
-    for n in list(range(1, 40, 3)) + list(range(40, 140)) + list(range(140, 700, 7)) + [1000, 1400, 2100, 4200]:
+    for n in list(range(1, 40, 3)) + list(range(40, 140)) + list(range(140, 700, 23)) + [1000, 2100]:
         inner = '\\x {a}' * n
         yield '\\note[' + inner + ']{text}', 'bracket-body', n
         if n % 2:
